@@ -203,3 +203,32 @@ func VPH_table() {
 	}
 	vp_Reach("end")
 }
+
+// VPH_itemPaths (C08, C11): every item cites the object recorded for *its own*
+// metric (and items without a witness cite nothing).
+func VPH_itemPaths() {
+	var hs HistorySize
+	mk := func() *Path { return &Path{} }
+	hs.MaxCommitSizeCommit, hs.MaxParentCountCommit, hs.MaxTreeEntriesTree, hs.MaxBlobSizeBlob = mk(), mk(), mk(), mk()
+	hs.MaxTagDepthTag, hs.MaxPathDepthTree, hs.MaxPathLengthTree = mk(), mk(), mk()
+	hs.MaxExpandedTreeCountTree, hs.MaxExpandedBlobCountTree, hs.MaxExpandedBlobSizeTree = mk(), mk(), mk()
+	hs.MaxExpandedLinkCountTree, hs.MaxExpandedSubmoduleCountTree = mk(), mk()
+	want := map[string]*Path{
+		"maxCommitSize": hs.MaxCommitSizeCommit, "maxCommitParentCount": hs.MaxParentCountCommit, "maxTreeEntries": hs.MaxTreeEntriesTree,
+		"maxBlobSize": hs.MaxBlobSizeBlob, "maxTagDepth": hs.MaxTagDepthTag, "maxCheckoutPathDepth": hs.MaxPathDepthTree,
+		"maxCheckoutPathLength": hs.MaxPathLengthTree, "maxCheckoutTreeCount": hs.MaxExpandedTreeCountTree,
+		"maxCheckoutBlobCount": hs.MaxExpandedBlobCountTree, "maxCheckoutBlobSize": hs.MaxExpandedBlobSizeTree,
+		"maxCheckoutLinkCount": hs.MaxExpandedLinkCountTree, "maxCheckoutSubmoduleCount": hs.MaxExpandedSubmoduleCountTree,
+	}
+	items := map[string]*item{}
+	hs.contents(nil).CollectItems(items)
+	for _, spec := range vpItemTable {
+		it := items[spec.symbol]
+		if it == nil {
+			vp_Fail("item exists: " + spec.symbol)
+			continue
+		}
+		vp_Assert(it.path == want[spec.symbol], "the item cites the witness of its own metric: "+spec.symbol)
+	}
+	vp_Reach("end")
+}
